@@ -157,7 +157,7 @@ namespace options
 
         for (int i = 1; i < argc; i++)
         {
-            args.emplace_back(argv[i]);
+            args.emplace_back(argv[i], user_input::unchecked_t());
         }
 
         return parse(args);
